@@ -6,7 +6,7 @@ import os
 
 from vx.unit import Unit
 
-PROPS = ['C06', 'C01']
+PROPS = ['C06', 'C08', 'C01']
 
 ALPHABET = ['a', 'é', '\U0001F680']
 
@@ -102,7 +102,7 @@ def strings():
 
 
 def build(repo, findings):
-    u = Unit('U9', 'shortest/longest prefix and suffix removal (bounded, Kani)', repo, ['C06'], safety_props=['C01', 'C06'])
+    u = Unit('U9', 'shortest/longest prefix and suffix removal (bounded, Kani)', repo, ['C06', 'C08'], safety_props=['C01', 'C06'])
     u.kani_only = True
     src = u.source('brush-core/src/patterns.rs')
     fns = []
@@ -130,7 +130,7 @@ def build(repo, findings):
     u.bounded.append({
         'name': 'affix-removal', 'build': gen, 'harnesses': ['affix_%02d' % i for i in sel], 'timeout': 240, 'workers': 10,
         'label': 'bounded', 'bound': 'subject strings: all %d strings of <= %d characters over {a, U+00E9, U+1F680} (1-, 2-, 4-byte) [quick: <= 2 chars, thorough: <= 3 chars]; match predicate: fully symbolic (64-bit table by candidate byte length); unwind 16 with unwinding assertions' % (len(sel), 3 if tier == 'thorough' else 2),
-        'props': ['C06'], 'quick': True,
+        'props': ['C06', 'C08'], 'quick': True,
     })
     # ---- second bounded job: Expansion::classify (set / unset / null), closures over iterators — not Verus material
     ex = u.source('brush-core/src/expansion.rs')
